@@ -382,8 +382,9 @@ def load_known():
 
 def finish(env, thm, trusted_base, rule, extra_cov=None, assumptions=None):
     """Print verdict lines, write evidence, return exit code."""
-    os.makedirs(os.path.join(ROOT, "evidence"), exist_ok=True)
-    os.makedirs(os.path.join(ROOT, "replays"), exist_ok=True)
+    OUT = os.environ.get("VERIF_OUT", ROOT)     # scratch runs (seeded-change trials) must not overwrite committed evidence
+    os.makedirs(os.path.join(OUT, "evidence"), exist_ok=True)
+    os.makedirs(os.path.join(OUT, "replays"), exist_ok=True)
     rc = 0
     for k, desc in env.known_hits:
         print("KNOWN-FINDING: property=%s %s" % (env.prop, k.get("what", desc)))
@@ -397,7 +398,7 @@ def finish(env, thm, trusted_base, rule, extra_cov=None, assumptions=None):
     have_failing_input = any(v[2] for v in vio)
     for i, (desc, replay, failing) in enumerate(vio):
         h = hashlib.sha1(json.dumps(replay, sort_keys=True, default=str).encode()).hexdigest()[:10]
-        path = os.path.join(ROOT, "replays", "%s-%s.json" % (env.prop, h))
+        path = os.path.join(OUT, "replays", "%s-%s.json" % (env.prop, h))
         with open(path, "w") as f:
             json.dump({"property": env.prop, "description": desc, "seed": env.seed, "tier": env.tier,
                        "replay": replay}, f, indent=1, default=str)
@@ -438,7 +439,7 @@ def finish(env, thm, trusted_base, rule, extra_cov=None, assumptions=None):
         "wall_s": round(time.time() - env.t0, 2),
         "violations": len(vio),
     }
-    with open(os.path.join(ROOT, "evidence", env.prop + ".json"), "w") as f:
+    with open(os.path.join(OUT, "evidence", env.prop + ".json"), "w") as f:
         json.dump(ev, f, indent=1)
     if rc == 0:
         print("OK property=%s tier=%s theorems=%d/%d tie_cases=%d evaluations=%d wall=%.1fs" % (
